@@ -849,6 +849,53 @@ func runC02(c *Ctx) {
 			c.info("C02-R7", fnKey(xr)+"#no-executeStatements", xr.Pos(), "ExecuteRoute does not run the body through executeStatements")
 		}
 	}
+	// both engines decide alike when a return carries a status: the comparisons of ReturnStatement.Status with constants
+	// in the interpreter's return executor and in the compiler's return arm are the same set (`:: 200` is a status-
+	// carrying return in both, exempt from the return-type check in both)
+	{
+		cmps := func(pkgRel string) (map[string]bool, token.Pos) {
+			out := map[string]bool{}
+			var at token.Pos
+			for _, fn := range c.srcFuncs(pkgRel) {
+				if pkgRel == compilerPkg && strings.Contains(fn.Name(), "ptimiz") {
+					continue
+				}
+				eachInstr(fn, func(_ *ssa.BasicBlock, _ int, ins ssa.Instruction) {
+					bo, ok := ins.(*ssa.BinOp)
+					if !ok {
+						return
+					}
+					for _, pr := range [][2]ssa.Value{{bo.X, bo.Y}, {bo.Y, bo.X}} {
+						isStatus := false
+						v := stripConv(pr[0])
+						if loadedFromField(v, "ReturnStatement", "Status") {
+							isStatus = true
+						}
+						if fl, ok := v.(*ssa.Field); ok {
+							if nt := namedOf(fl.X.Type()); nt != nil && nt.Obj().Name() == "ReturnStatement" && nt.Underlying().(*types.Struct).Field(fl.Field).Name() == "Status" {
+								isStatus = true
+							}
+						}
+						if !isStatus {
+							continue
+						}
+						if k, ok := constInt(pr[1]); ok {
+							out[bo.Op.String()+" "+itoa(int(k))] = true
+							at = bo.Pos()
+						}
+					}
+				})
+			}
+			return out, at
+		}
+		a, _ := cmps(interpPkg)
+		b, pos := cmps(compilerPkg)
+		if len(a) > 0 && len(b) > 0 {
+			c.ob("C02-R7", "return-status#both-engines-decide-alike-when-a-return-carries-a-status", pos, setStr(a) == setStr(b), "the interpreter tests a return's status with {"+setStr(a)+"} and the compiler with {"+setStr(b)+"}: a return such as `> {error: …} :: 200` is a status-carrying response (exempt from the declared return type) in one engine and an ordinary result in the other - 200 compiled, 500 interpreted")
+		} else {
+			c.info("C02-R7", "return-status#comparisons", token.NoPos, "status comparisons not found in both engines")
+		}
+	}
 	// both handlers bind the same projection of a header that was sent on several lines
 	{
 		proj := func(root *ssa.Function) (map[string]bool, int) {
@@ -916,6 +963,52 @@ func runC02(c *Ctx) {
 			c.ob("C02-R7", "cmd/glyph#repeated-header-projection-agrees", token.NoPos, setStr(a) == setStr(b), "for a header sent on several lines the compiled handler binds {"+setStr(a)+"} of its values and the interpreted path {"+setStr(b)+"}: a route reading headers[\"X-Forwarded-For\"] sees \"10.0.0.7, 192.168.1.1\" in one engine and \"10.0.0.7\" in the other")
 		} else {
 			c.info("C02-R7", "cmd/glyph#header-binding", token.NoPos, "header binding loops not found in both handlers: "+itoa(na)+"/"+itoa(nb))
+		}
+	}
+	// the conversion of request data into VM values keeps the kind: what the interpreter holds as a float64 (every JSON
+	// number) is a FloatValue for the VM, an int64 an IntValue - the engines must not disagree on int vs float
+	if iv := c.fn(glyphCmd, "interfaceToValue"); iv != nil {
+		want := map[string]string{"float64": "FloatValue", "float32": "FloatValue", "int64": "IntValue", "int": "IntValue", "string": "StringValue", "bool": "BoolValue"}
+		n := 0
+		eachInstr(iv, func(_ *ssa.BasicBlock, _ int, ins ssa.Instruction) {
+			r, ok := ins.(*ssa.Return)
+			if !ok || len(r.Results) != 1 {
+				return
+			}
+			mi, ok := retVals(r)[0].(*ssa.MakeInterface)
+			if !ok {
+				return
+			}
+			gotNamed := namedOf(mi.X.Type())
+			if gotNamed == nil {
+				return
+			}
+			// which asserted Go kind does the returned value's payload come from?
+			src := ""
+			derivesFrom(mi.X, func(v ssa.Value) bool {
+				var ta *ssa.TypeAssert
+				switch x := v.(type) {
+				case *ssa.TypeAssert:
+					ta = x
+				case *ssa.Extract:
+					ta, _ = x.Tuple.(*ssa.TypeAssert)
+				}
+				if ta != nil && ta.X == ssa.Value(iv.Params[0]) {
+					if bt, ok := ta.AssertedType.(*types.Basic); ok {
+						src = bt.Name()
+						return true
+					}
+				}
+				return false
+			})
+			if want[src] == "" {
+				return
+			}
+			n++
+			c.ob("C02-R7", fnKey(iv)+"#conversion-keeps-the-kind:"+src+"-"+itoa(n), r.Pos(), gotNamed.Obj().Name() == want[src], "a "+src+" of the request data is handed to the VM as "+gotNamed.Obj().Name()+" instead of "+want[src]+": the interpreter keeps the decoded number as it is, so `input.total / input.people` is 3 compiled and 3.5 interpreted, and `names[input.index]` works in one engine only")
+		})
+		if n < 3 {
+			c.info("C02-R7", fnKey(iv)+"#conversion-arms", iv.Pos(), "fewer than 3 scalar conversion arms recognised in interfaceToValue")
 		}
 	}
 	// every Go type the shared query processing can put into the query object has an arm in the VM value conversion
